@@ -235,7 +235,7 @@ def analyse(an, stream, ins, go, lean, must_hold, complete_lean=True):
             continue
         if tag == "R ":
             kv = dict(x.split("=", 1) for x in l.split()[2:] if "=" in x)
-            run = {"id": l.split()[1], "variant": kv.get("variant"), "cores": int(kv.get("cores", "0")), "case": case}
+            run = {"id": l.split()[1], "variant": kv.get("variant"), "cores": int(kv.get("cores", "0")), "case": case, "mem": int(kv.get("mem", "0") or 0)}
             an.runs += 1
             an.by_variant[run["variant"]] += 1
             an.by_cores[run["cores"]] += 1
@@ -310,6 +310,11 @@ def analyse(an, stream, ins, go, lean, must_hold, complete_lean=True):
                 an.excused += 1
                 if len(an.findings) < 50:
                     an.findings.append(rec)
+            elif not must_hold and tag == "S " and ("ref=lost" in m or "ref=skip" in m) and run and run.get("mem") and \
+                    any(int(a) >= run["mem"] for a in re.findall(r"[/,=](\d+):\d+:", l.split(" ; nl=")[0])):
+                # a wrong-path access OUTSIDE the memory (a "wild" line has no next level and the replay stops at it): skipped, as in
+                # the must-hold streams; C06 speaks of the lines of the memory
+                an.wild_skipped = getattr(an, "wild_skipped", 0) + 1
             elif not must_hold and tag == "S " and ("ref=lost" in m or "ref=fail" in m or "ref=skip" in m):
                 # the excuse needs the replay (which (core, line) was flushed in its window): without it the
                 # snapshot cannot be classified; the lost refinement itself is reported
